@@ -209,7 +209,7 @@ XInit == /\ phase = "setup"
          /\ idx = [h \in Hashes |-> -1]
          /\ txin = [t \in Txs |-> {}] /\ own = [q \in OPs |-> FALSE]
          /\ cont = [h \in Hashes |-> Unset]
-         /\ ws = [q \in OPs |-> NoRec] /\ lbi = Base - 1 /\ wview = <<>>
+         /\ ws = [q \in OPs |-> NoRec] /\ lbi = -1 /\ wview = <<>>
          /\ pend = <<>> /\ atomic = TRUE
          /\ seen = {} /\ mseen = {} /\ sent = {}
          /\ ndel = 0 /\ nmem = 0 /\ nsend = 0 /\ nrew = 0
@@ -221,8 +221,12 @@ Pick == /\ phase = "setup" /\ phase' = "run"
         /\ UNCHANGED <<cont, ws, lbi, wview, pend, atomic, seen, mseen, sent, ndel, nmem, nsend, nrew>>
 
 \* headers are delivered; the tracker reports a heaviest chain and the operations towards it
+\* (what a delivery does depends on delivered \cup B only: one batch per value of it - the new
+\* headers - and the re-delivery of one known header, for the moves between tied chains, reach
+\* every state that arbitrary batches reach)
 Deliver(B) ==
   /\ phase = "run" /\ pend = <<>> /\ ndel < MaxDeliver
+  /\ B \cap delivered = {} \/ Cardinality(B) = 1
   /\ \E c \in Heaviest(delivered \cup B, SubSeq(chain, 1, nlocked)) :
         /\ chain' = c
         /\ lastops' = MinOps(chain, c)
@@ -310,7 +314,8 @@ OpsFit == pend # <<>> =>
             ELSE o[3] = Len(wview)
 \* once everything handed over is processed the wallet follows the reported chain
 ViewOk == pend = <<>> => wview = chain
-LbiOk == lbi = Base + Len(wview) - 1
+\* (a wallet that never saw a block says -1, whatever the index of the first block is)
+LbiOk == IF wview = <<>> THEN lbi \in {-1, Base - 1} ELSE lbi = Base + Len(wview) - 1
 \* the refinement statement: the records are those of a from-scratch replay of the current chain
 StateIsReplay == ws = Replay(wview)
 \* and the balances are the sums the statement describes
